@@ -446,6 +446,10 @@ class C14(common.Prop):
         frac = E - lo_n
         near_half = abs(frac - Fraction(1, 2)) <= Fraction(1, 10 ** 9) * max(1, E)
         n_ok = {lo_n, lo_n + 1} if near_half else {round(E)}
+        # an EXACT tie computed without any rounding (F * new is a representable product, the quotient k + 1/2 is then
+        # exact too): `round` is Python's (half to even) and nothing else is acceptable
+        if frac == Fraction(1, 2) and Fraction(float(F) * newf) == F * Fraction(newf):
+            n_ok = {round(E)}
         if impl[0] != "ok":
             return {"clause": "raises", "what": "interpolate raises on a body in the property's domain: " + impl[1], "n_expected": sorted(n_ok)}
         r = impl[1]
